@@ -3,6 +3,9 @@
   `Http.onResponse`:
 
   * `b64encode` (the key is `b64encode(os.urandom(16))`),
+  * `acceptFor`: the accept value `on_response` expects, `b64encode(sha1(key + WS_KEY).digest())`,
+    computed (SHA-1 is `Model/Sha1.lean`) from the key in the object's state — the key that the
+    request of the same attempt carries,
   * how `WebSocket.__init__` derives `resource` and `_host_port` from the components
     `urlparse` returns (`urlparse` itself is CPython and stays outside the model),
   * the key life-cycle: `WebSocket.State.__init__` draws a key; `__init__` and every
@@ -17,6 +20,7 @@
 -/
 import Lomond.Model.Basic
 import Lomond.Model.Http
+import Lomond.Model.Sha1
 import Lomond.Generated.Tables
 
 namespace Lomond.Handshake
@@ -66,6 +70,13 @@ def b64decode : Bytes → Option Bytes
       some ((p * 4 + q / 16) :: (q % 16 * 16 + r / 4) :: (r % 4 * 64 + s) :: t)
     | _, _, _, _, _ => none
   | _ => none
+
+/-! ### the accept value (RFC 6455 §4.2.2 item 5.4) -/
+
+/-- `b64encode(sha1(key + constants.WS_KEY).digest())`: the `Sec-WebSocket-Accept` value that answers the
+    request key `key` (the base64 text as sent).  `Gen.wsKey` is regenerated from `lomond/constants.py`.
+    The result is ASCII, so `.decode('ascii')` leaves the code points as they are. -/
+def acceptFor (key : Bytes) : Bytes := b64encode (Sha1.sha1 (key ++ Gen.wsKey))
 
 /-! ### `WebSocket.__init__`: URL components ↦ request parameters -/
 
@@ -138,6 +149,21 @@ def afterConnects (rnd : Nat → Bytes) : Nat → KeyState
 /-- the request bytes the `n`-th `connect()` (1-based) writes -/
 def nthRequest (c : Client) (rnd : Nat → Bytes) (n : Nat) : Bytes :=
   buildRequest (c.reqCfg (afterConnects rnd n).key)
+
+/-- `challenge = b64encode(sha1(self.key + constants.WS_KEY).digest()).decode('ascii')` as
+    `on_response` computes it from the object's state: `self.key` is `self.state.key` -/
+def KeyState.challenge (w : KeyState) : Str := acceptFor w.key
+
+/-- the value the accept header is compared with during the `n`-th connection attempt -/
+def nthChallenge (rnd : Nat → Bytes) (n : Nat) : Str := (afterConnects rnd n).challenge
+
+/-- `WebSocket.on_response` of the object in state `w`: nothing but the reply and the state enters -/
+def KeyState.onResponse (strictAccept : Bool) (w : KeyState) (r : Response) : Except Str Accepted :=
+  Http.onResponse strictAccept w.challenge r
+
+/-- `on_response` during the `n`-th connection attempt -/
+def nthOnResponse (strictAccept : Bool) (rnd : Nat → Bytes) (n : Nat) (r : Response) : Except Str Accepted :=
+  (afterConnects rnd n).onResponse strictAccept r
 
 end Lomond.Handshake
 
